@@ -12,6 +12,7 @@ import (
 	"sort"
 	"strconv"
 	"strings"
+	"unicode"
 	"unicode/utf8"
 
 	flags "github.com/jessevdk/go-flags"
@@ -235,6 +236,12 @@ func wrapOracles(c *Ctx, s string, l int, prefix string, out string) {
 				continue
 			}
 			body = ln[len(prefix):]
+			// ... and with nothing more: the text starts right after the prefix
+			if first, _ := utf8.DecodeRuneInString(body); body != "" && unicode.IsSpace(first) {
+				c.Check("wrap-continuation-indent", false, "C17:wrap-indent", in, fmt.Sprintf("line %d: %q", i, ln), "the text starts right after the prefix")
+				continue
+			}
+			c.Check("wrap-continuation-indent", true, "", nil, "", "")
 		}
 		if utf8.RuneCountInString(body) > eff {
 			c.Check("wrap-line-width", false, "C17:wrap-width", in, fmt.Sprintf("line %d has %d characters: %q", i, utf8.RuneCountInString(body), body), fmt.Sprintf("<= %d", eff))
